@@ -156,6 +156,11 @@ pub fn run(rng: &mut Rng, out: &mut Out, thorough: bool, variant: &str) {
                 format!("{{\"which\":{},\"arg\":{},\"out\":{}}}", which, a, jres(&r, |x| nu(*x))), true);
         }
     }
+    for v in [false, true] {
+        let r = catch(|| bits::filler_value(v) as usize);
+        out.case("fun", format!("CFun 8 {} [{}] {}", b(DBG), v as u64, ires(&r, |x| nu(*x))),
+            format!("{{\"which\":8,\"arg\":{},\"out\":{}}}", v, jres(&r, |x| nu(*x))), true);
+    }
     let ns: Vec<usize> = vec![0, 1, 2, 3, 7, 8, 13, 64, 1 << 32, m / 2, m - 1, m];
     for a in args1.iter().take(60) {
         for d in ns.iter() {
